@@ -1,8 +1,9 @@
 /-
 Driver for C31 (sequential tasks): `Sched` correspondence + judge on the observed trace.
 
-Judge (from the property text, on what the REAL scheduler did), for every task flagged `sequential` by the loaded
-configuration: (1) in no observation are two instances of the task preparing, submitted or running; (2) every
+Judge (from the property text, on what the REAL scheduler did), for every task declared sequential by the flow.cylc
+text (`[[special tasks]] sequential`, family names replaced by everything that inherits them - full, multiple
+inheritance; harness key `seq_declared`) or flagged `sequential` by the loaded configuration: (1) in no observation are two instances of the task preparing, submitted or running; (2) every
 launch of instance p happens after the `succeeded` output of the nearest previous valid point of the task was
 seen complete in an earlier observation, unless that point lies before the start point.
 The hypotheses of the theorems are checked on every real graph: `Graph.wf`, and `Graph.seqShape` for every
@@ -45,7 +46,11 @@ def judgeStep (g : Graph) (seqs : List String) (i : Nat) (_prev ob : Json) (seen
 
 def judge (i : Json) (c : Case) (o : Json) : Option String :=
   let g := c.graph
-  let seqs := (g.tasks.map (·.name)).filter (jsonSequential i)
+  -- the tasks declared sequential by the flow.cylc TEXT (special tasks list with family names replaced through the
+  -- full inheritance; computed by the harness from the text, key `seq_declared`), together with those the loaded
+  -- configuration flags - a task declared sequential that the configuration does not treat so is judged like any other
+  let declared : List String := ((jArrField? i "seq_declared").getD []).filterMap jStr?
+  let seqs := (g.tasks.map (·.name)).filter fun n => declared.contains n || jsonSequential i n
   -- the property on the trace (the first observation included)
   let dyn : Option String :=
     match obsList o with
